@@ -268,7 +268,24 @@ def F26_stale_early_stop_on_a_reused_matcher():
     return None if out[0] == out[1] and out[0][1] else f"ERROR level -> {out[0]}, DEBUG level -> {out[1]} (second field: early_stop_idx is None or 0)"
 
 
-ALL = [F26_stale_early_stop_on_a_reused_matcher, F21_antimeridian_box, F20_debug_placeholder_order_in_ne_layer, F15_latlon_triples_node_mode, F1_hashseed, F2_long_edge, F3_latlon_box, F6c_latlon_inf, F4_sqlite_bb, F5a_parallel, F6a_obs_on_road,
+def F27_purged_map():
+    """C17: after InMemMap.purge() / del_node() the neighbour lists still name the removed node; all_edges() and nodes_nbrto() skip
+    such entries, edges_closeto() raised KeyError -> match() on a purged map raised."""
+    from leuvenmapmatching.map.inmem import InMemMap
+    from leuvenmapmatching.matcher.simple import SimpleMatcher
+    m = InMemMap('x', use_latlon=False, use_rtree=False)
+    for k, p in (('A', (0.5, 1.5)), ('B', (4, 0.5)), ('C', (4, 3))):
+        m.add_node(k, p)
+    m.add_edge('A', 'B'); m.add_edge('B', 'A'); m.add_edge('B', 'C')
+    m.purge()           # removes C (no outgoing road); B still lists it
+    try:
+        r = SimpleMatcher(m, obs_noise=0.5, max_dist=3, non_emitting_states=False).match([(3.25, 0.75), (3.75, 0.5), (3.75, 0.75)])
+    except Exception as e:
+        return f"match() on the purged map raised {e!r}"
+    return None if r[1] == 2 else f"match() on the purged map returned {r}"
+
+
+ALL = [F27_purged_map, F26_stale_early_stop_on_a_reused_matcher, F21_antimeridian_box, F20_debug_placeholder_order_in_ne_layer, F15_latlon_triples_node_mode, F1_hashseed, F2_long_edge, F3_latlon_box, F6c_latlon_inf, F4_sqlite_bb, F5a_parallel, F6a_obs_on_road,
        F6b_triples_planar_ne, F7_sqlite_reopen_flag, F8_debug_changes_result, F12_sqlite_float32]
 
 if __name__ == '__main__':
